@@ -383,7 +383,20 @@ class CFG:
                 while h is not None and h.kind != 'handler':
                     h = h.outer
                 classes = sorted({e.exc for e in h.hnode.pred if e.exc}) if h is not None else ['BaseException']
-                pairs = sorted({(e.exc, e.cause or 'e3') for e in (h.hnode.pred if h is not None else []) if e.exc})
+                pairs = set()
+                lat = self.an.lattice
+                for e in (h.hnode.pred if h is not None else []):
+                    if not e.exc:
+                        continue
+                    # what is re-raised is what the handler caught: an incoming class broader than the handler's type is narrowed to that type
+                    types = getattr(h.hnode, 'handler_types', None) or []
+                    narrowed = [t for t in types if lat.match(e.exc, t) == 'maybe']
+                    if narrowed and not any(lat.match(e.exc, t) == 'yes' for t in types):
+                        for t in narrowed:
+                            pairs.add((t, e.cause or 'e3'))
+                    else:
+                        pairs.add((e.exc, e.cause or 'e3'))
+                pairs = sorted(pairs)
                 for c, cz in pairs or [('BaseException', 'e3')]:
                     self._route_exc(last, frame, c, kind='reraise', cause=cz)
             else:
